@@ -79,6 +79,17 @@ def binop(op, a, b, safety=None):
         raise Unsupported(f"binop on python-level values {a} {b}")
     if a.sort == STR and b.sort == STR and isinstance(op, ast.Add):
         return vstr(z3.Concat(a.z, b.z))
+    if isinstance(a.sort, SeqSort) and isinstance(b.sort, SeqSort) and isinstance(op, ast.Add) and a.sort == b.sort:
+        # list concatenation: a fresh sequence constrained elementwise
+        r = a.sort.fresh("concat")
+        i = z3.Int(fresh_name("cci"))
+        cons = [r.comps[0] == a.comps[0] + b.comps[0]]
+        for ra, aa, ba in zip(r.comps[1:], a.comps[1:], b.comps[1:]):
+            cons.append(z3.ForAll([i], z3.Implies(z3.And(0 <= i, i < a.comps[0]), z3.Select(ra, i) == z3.Select(aa, i))))
+            cons.append(z3.ForAll([i], z3.Implies(z3.And(0 <= i, i < b.comps[0]), z3.Select(ra, a.comps[0] + i) == z3.Select(ba, i))))
+        if safety:
+            safety("__assume__", z3.And(*cons))
+        return r
     if isinstance(a.sort, SeqSort) or isinstance(b.sort, SeqSort):
         raise Unsupported("sequence arithmetic")
     a, b = unwrap_opt(a, safety), unwrap_opt(b, safety)
